@@ -1,5 +1,5 @@
 """Single source of truth for MANIFEST.json (bin/mkmanifest)."""
-HOOK_COMMITS = ["1948070", "0be6ff1", "25ace7b", "2d7245c"]
+HOOK_COMMITS = ["1948070", "0be6ff1", "25ace7b", "2d7245c", "1beee83"]
 NOTES = ("All checks: bin/check <id> quick|thorough.  Each run: srcfacts regenerates coq/Src from /repo, make re-checks the "
          "Coq development, the Go harness is rebuilt from /repo with -tags verif, cases are generated from VERIF_SEED, "
          "the implementation and the model are run on them and compared, the Coq specification predicate is evaluated on "
@@ -152,4 +152,26 @@ CHECKS["C04"] = {
  "note": "Trusted: as C12, plus the toy reversible cipher shared by harness and model. Values and flags of whole documents through the "
          "evaluator are compared, not proved, for this property.",
  "technique": "machine-checked proof in Coq + model/implementation correspondence check",
+}
+
+CHECKS["C15"] = {
+ "text": "Coq theorems over yaml.v3 node trees and a line-by-line model of YAMLSyntax.Get/Set/Delete and the env set / env rm / env get "
+         "routing, parametric in nine source facts read by srcfacts: get-after-set, frame (every path neither above nor below the edited "
+         "one finds the identical node, untouched keys keep order and comments, new keys appended), well-formedness, delete removes "
+         "exactly the path with the index shift stated, delete of a missing path is a no-op or error and never a panic, --secret stores "
+         "fn::secret of the given text; lifted by induction to ALL sequences of commands; direct YAMLSyntax calls and the real CLI "
+         "commands against a fake backend are compared step by step on sequences of 1-6 operations",
+ "note": "Trusted: Coq kernel, srcfacts, correspondence harness (fake backend, in-memory fs through a verif hook), extraction. yaml.v3's "
+         "scanner/emitter, ParsePropertyPath and cobra are exercised, not modelled; parsed definitions/values/paths are inputs of the model.",
+ "technique": "machine-checked proof in Coq + model/implementation correspondence check",
+}
+CHECKS["C18"] = {
+ "text": "Coq theorems over a table-driven executable model of encoding/json for the API types: serialisability and unmarshal(marshal v) = v "
+         "for every value of every type outside decidable known-finding classes, injectivity, distinctness of null/false/0/\"\"/[]/{}; "
+         "struct tags, custom (Un)MarshalJSON shapes and Schema's boolean cases are RE-READ from the Go sources on every run with side "
+         "conditions discharged by computation; tied to the real types by differential execution (reflection-built trees incl. "
+         "exhaustive per-field families, raw JSON documents, evaluation results of generated programs)",
+ "note": "Trusted: Coq kernel, srcfacts, the reflection build/dump in implrun/c18.go (self-checked), extraction; the json text layer and "
+         "float formatting are exercised, not modelled.",
+ "technique": "model tables regenerated from source + machine-checked proof in Coq + correspondence check",
 }
